@@ -143,7 +143,9 @@ class HDict(dict):
 
     def __iter__(self):
         if self._ents is None:
-            return dict.__iter__(self)
+            # a snapshot: a lookup with a symbolic key during the iteration
+            # moves the entries out of the built-in storage
+            return iter(list(dict.__iter__(self)))
         return iter([e[0] for e in self._ents])
 
     def keys(self):
@@ -305,6 +307,9 @@ class HSet(set):
 
     def __and__(self, o):
         return self.intersection(o)
+
+    def isdisjoint(self, o):
+        return not any(x in self for x in o)
 
     def issubset(self, o):
         return all(x in o for x in self)
